@@ -205,8 +205,38 @@ pub struct ReaderStats {
     pub pointers: usize,
     /// client pointers selected with arguments
     pub pointers_with_arguments: usize,
+    /// client fields selected without an argument for a variable their reader uses
+    pub resolvers_omitting_a_variable: usize,
     pub fields_with_arguments: usize,
     pub variable_arguments: usize,
+}
+
+/// Variable names used in the arguments of the nodes of a reader AST (not descending into the
+/// readers of nested client fields, which get their own variable map).
+fn variables_used(ast: &Value, out: &mut Vec<String>) {
+    fn in_args(a: &Value, out: &mut Vec<String>) {
+        for pair in a.as_array().into_iter().flatten() {
+            let v = &pair[1];
+            if v["kind"] == "Variable" {
+                if let Some(n) = v["name"].as_str() {
+                    out.push(n.to_string());
+                }
+            } else if v["kind"] == "Object" {
+                in_args(&v["value"], out);
+            }
+        }
+    }
+    for n in ast.as_array().into_iter().flatten() {
+        in_args(&n["arguments"], out);
+        in_args(&n["queryArguments"], out);
+        if n["kind"] == "Linked" {
+            variables_used(&n["selections"], out);
+            // conditions (asX, pointers) are read with the same variables by the runtime
+            if n["condition"].is_object() {
+                variables_used(&n["condition"]["readerAst"], out);
+            }
+        }
+    }
 }
 
 pub fn reader_stats(ast: &Value) -> ReaderStats {
@@ -248,6 +278,12 @@ pub fn reader_stats(ast: &Value) -> ReaderStats {
                     }
                     if n["arguments"].is_array() {
                         s.resolver_with_arguments += 1;
+                    }
+                    let mut used = vec![];
+                    variables_used(&n["readerArtifact"]["readerAst"], &mut used);
+                    let passed: Vec<&str> = n["arguments"].as_array().into_iter().flatten().filter_map(|p| p[0].as_str()).collect();
+                    if used.iter().any(|u| !passed.contains(&u.as_str())) {
+                        s.resolvers_omitting_a_variable += 1;
                     }
                     walk(&n["readerArtifact"]["readerAst"], depth + 1, s);
                 }
